@@ -22,24 +22,6 @@ var Methods = []string{"GET", "POST", "PUT", "DELETE", "PATCH", "OPTIONS", "HEAD
 // ExpandMethod returns the method trees a registration under `method` goes to
 // (nil when the method is unknown).
 func ExpandMethod(method string) []string {
-	if strings.Contains(method, ",") {
-		// a comma list as Routes() takes it: blanks around the names are ignored
-		var out []string
-		seen := map[string]bool{}
-		for _, part := range strings.Split(method, ",") {
-			ms := ExpandMethod(strings.TrimSpace(part))
-			if ms == nil {
-				return nil
-			}
-			for _, m := range ms {
-				if !seen[m] {
-					seen[m] = true
-					out = append(out, m)
-				}
-			}
-		}
-		return out
-	}
 	m := strings.ToUpper(method)
 	if m == "*" {
 		return Methods
@@ -50,6 +32,26 @@ func ExpandMethod(method string) []string {
 		}
 	}
 	return nil
+}
+
+// ExpandMethods is ExpandMethod for a comma list as Routes() takes it: blanks
+// around the names are ignored (nil when any name is unknown).
+func ExpandMethods(list string) []string {
+	var out []string
+	seen := map[string]bool{}
+	for _, part := range strings.Split(list, ",") {
+		ms := ExpandMethod(strings.TrimSpace(part))
+		if ms == nil {
+			return nil
+		}
+		for _, m := range ms {
+			if !seen[m] {
+				seen[m] = true
+				out = append(out, m)
+			}
+		}
+	}
+	return out
 }
 
 // Registrar tracks, per method, the routes accepted so far and classifies a
